@@ -1246,3 +1246,87 @@ func c12TokenPerPlaceholder(c *Ctx, r *Report, rule string) {
 	})
 	r.Floor(rule, 1, "the placeholder loop of CompileEx")
 }
+
+// ---------------------------------------------------------------- C18-d one authority decides what a duration is
+
+// c18DurationAuthority (C18-d/duration-authority): {duration} must yield the
+// error marker for unparseable input and whole seconds that {durationformat}
+// turns back into the same duration. What is parseable is decided by
+// time.ParseDuration; a second recogniser in front of or beside it (a "fast
+// path" through ParseFloat / Atoi, a hand-written unit table) accepts a
+// different language (1e3s, 0x1p4s, infs) and converts with different
+// rounding and range. Every return of the stage is therefore either one of
+// the Error markers or is computed from the Duration that time.ParseDuration
+// returned.
+func c18DurationAuthority(c *Ctx, r *Report, rule string) {
+	fi := c.stageFactoryByKey("duration")
+	if fi == nil {
+		r.Undecided(rule, stdlibPkg, "duration", "-", "the factory registered under \"duration\" was not found")
+		return
+	}
+	info := fi.Pkg.TypesInfo
+	n := 0
+	for _, fl := range funcLitsIn(fi.Decl.Body) {
+		if !isStageLit(info, fl) {
+			continue
+		}
+		// values derived from ParseDuration's first result
+		derived := map[types.Object]bool{}
+		for changed := true; changed; {
+			changed = false
+			ast.Inspect(fl.Body, func(x ast.Node) bool {
+				as, ok := x.(*ast.AssignStmt)
+				if !ok {
+					return true
+				}
+				if len(as.Rhs) == 1 && len(as.Lhs) == 2 {
+					if ce, ok := ast.Unparen(as.Rhs[0]).(*ast.CallExpr); ok && calleeName(info, ce) == "time.ParseDuration" {
+						if o := identObj(info, as.Lhs[0]); o != nil && !derived[o] {
+							derived[o] = true
+							changed = true
+						}
+					}
+					return true
+				}
+				if len(as.Lhs) == len(as.Rhs) {
+					for i, rhs := range as.Rhs {
+						uses := false
+						ast.Inspect(rhs, func(y ast.Node) bool {
+							if id, ok := y.(*ast.Ident); ok && derived[info.Uses[id]] {
+								uses = true
+							}
+							return true
+						})
+						if o := identObj(info, as.Lhs[i]); uses && o != nil && !derived[o] {
+							derived[o] = true
+							changed = true
+						}
+					}
+				}
+				return true
+			})
+		}
+		inspectNoLit(fl.Body, func(x ast.Node) bool {
+			rs, ok := x.(*ast.ReturnStmt)
+			if !ok || len(rs.Results) != 1 {
+				return true
+			}
+			n++
+			res := rs.Results[0]
+			okRet := false
+			if o := identObj(info, res); o != nil && strings.HasPrefix(o.Name(), "Error") {
+				okRet = true
+			}
+			ast.Inspect(res, func(y ast.Node) bool {
+				if id, ok := y.(*ast.Ident); ok && derived[info.Uses[id]] {
+					okRet = true
+				}
+				return true
+			})
+			r.Check(okRet, rule, fi.Name, "return "+exprStr(res), c.Pos(rs.Pos()), "flow: the result is an error marker or is computed from the Duration time.ParseDuration returned",
+				"the duration helper returns a value that does not come from time.ParseDuration: a second recogniser decides what a duration is, so inputs the documented parser rejects (1e3s, 0x1p4s, infs) yield numbers instead of the error marker, and the seconds no longer convert back to the same duration")
+			return true
+		})
+	}
+	r.Floor(rule, 2, "the error return and the seconds return of kfDuration")
+}
